@@ -1,24 +1,38 @@
 """Line-level cooperative thread scheduler (DESIGN.md 6.3).
 
-Logical threads are real `threading.Thread`s, but exactly one runs at a time.  A thread *parks*
+Logical threads are real OS threads (so `sys.settrace`, thread-locals and re-entrant calls behave as in
+production), but exactly one runs at a time.  A thread *parks*
 
   * on every `line` event inside a *target* code object (`sys.settrace`), i.e. before each source line of
-    the code under test,
+    the code under test (lines for which `skip(code, lineno)` holds are not scheduling points),
   * before a shared action on an instrumented object if it has already performed one since it was last
-    resumed (`before_action`: at most one shared action per step, so a line holding two of them can be split),
+    resumed (`before_action`: at most one shared action per step, so a line holding two of them is split),
   * at explicit `yield_point()`s,
   * when it would block (`block_until`: blocking is a scheduler state, never an OS-level wait),
 
-and continues only when the driver grants it one step (`step(tid)`).  A *schedule* is the list of thread ids
-the driver granted steps to.  "No thread enabled while some thread is not done" is a deadlock / lost wake-up.
-Virtual time: `now`, `block_until(..., deadline=)`, `advance()`.
+and continues only when it is granted a step.  Who runs next is decided by a `choose(enabled) -> tid`
+callback (`Scheduler.run`), evaluated by whichever thread is parking, so a thread that is chosen again just
+continues and a switch costs one lock hand-off.  A *schedule* is the list of thread ids that were granted
+steps.  "No thread enabled while some thread has not finished" is a deadlock / lost wake-up
+(`RunResult.deadlock`).  Virtual time: `now`, `block_until(..., deadline=)`, `advance()`.
 
-Provided on top: `SchedLock` (a `threading.Lock` stand-in), `SchedCondition`, and schedule exploration:
-`dfs()` (stateless depth-first enumeration with replay of schedule prefixes, optional partial-order
-reduction over steps known to be thread-local, optional preemption bound), `run_random()`, `run_fixed()`.
+Provided on top: `SchedLock` (stand-in for `threading.Lock` / `RLock`), `SchedCondition`, and schedule
+exploration: `dfs()` (stateless depth-first enumeration with replay of schedule prefixes; sound partial-order
+reduction from per-step access sets: steps touching nothing shared are not branched on, sleep sets suppress
+re-orderings of independent steps; optional preemption bound), `run_random()`, `run_fixed()`.
 
-Nothing here knows about rpyc; the property modules build the objects under test and tell the scheduler
-which code objects to trace.
+Nothing here knows about rpyc; the property modules build the objects under test, tell the scheduler which
+code objects to trace, and say what a step may touch.
+
+Typical use (see props/c12.py):
+
+    sched = Scheduler(targets=[Connection._send.__code__], skip=lambda code, ln: ln in thread_local_lines)
+    obj.lock = SchedLock(sched, on_event=log)            # instrumented shared objects call
+    ...                                                  # sched.before_action(label) before acting
+    sched.spawn(0, body0); sched.spawn(1, body1)
+    res = run_random(sched, rng)                         # or run_fixed(sched, [0, 1, 1, 0]) / dfs(new_run, access)
+    ... inspect res.schedule, res.deadlock, sched.errors(), the objects ...
+    sched.close()                                        # always: unwinds threads that did not finish
 """
 import sys
 import threading
